@@ -305,6 +305,31 @@ func CheckStress(p Plan) ([]evid.Violation, int) {
 			report("after the plan: %s answers %d (registered=%v)", tg.path, st, registered)
 		}
 	}
+	// after everything: a connection is routed iff its last operation registered it -
+	// a writer that finished successfully must not be overwritten by another writer
+	connected := map[string]bool{}
+	for _, op := range p.ConnOps {
+		kind, b, _ := strings.Cut(op, ":")
+		connected[b] = kind == "conn"
+	}
+	for _, svc := range []string{"SvcB", "SvcC", "SvcD", "SvcE"} {
+		owned := false
+		for b, on := range connected {
+			if on {
+				for _, s := range fixture.Serves[b] {
+					owned = owned || s == svc
+				}
+			}
+		}
+		path := "/fx/" + strings.ToLower(svc)
+		st := doProbe(mux, 0, path, "")
+		if owned && st != 200 || !owned && st == 200 {
+			report("after the plan: %s answers %d although the connection operations %v leave it served=%v (a completed registration or removal was lost)", path, st, p.ConnOps, owned)
+		}
+	}
+	if st := doProbe(mux, 0, "/fx/svca", ""); st != 200 {
+		report("after the plan: pre-registered /fx/svca answers %d", st)
+	}
 	if len(bad) > 0 {
 		return []evid.Violation{evid.V("stress", "stress:"+strings.SplitN(bad[0], " ", 2)[0], "%s", strings.Join(bad, "\n  "))}, int(overlaps.Load())
 	}
